@@ -28,11 +28,11 @@ func verifC20CmpOracle(t vt.TB, rec *stats.Recorder, a, b []byte, l int) {
 	}
 }
 
-func TestVerif_C20_Cmp(t *testing.T) {
+// verifProp_C20_Cmp builds the property (shared by the rapid test and the native fuzz target).
+func verifProp_C20_Cmp() func(*rapid.T) {
 	rec := stats.Get("C20", "cmp")
 	rec.Rule("rapid: l in 0..64, len(a),len(b) in l..l+4 (trailing bytes must be ignored), contents from {equal, differ at one drawn byte, borrow chain a=b±1 over 00/FF runs, extreme bytes, uniform}; oracle bytes.Compare(a[:l],b[:l]). Non-trivial: common prefix >= 8 bytes, or a 00/FF borrow chain, or trailing bytes present; distinct by (a[:l],b[:l],len a,len b).")
-	t.Cleanup(stats.FlushAll)
-	rapid.Check(t, func(t *rapid.T) {
+	return func(t *rapid.T) {
 		l := rapid.IntRange(0, 64).Draw(t, "l")
 		cls := gen.Pick(t, "class", "equal", "onebyte", "borrow", "extreme", "uniform", "lastbyte", "firstbyte")
 		r := gen.Rand(t, "seed")
@@ -113,7 +113,17 @@ func TestVerif_C20_Cmp(t *testing.T) {
 			rec.Sample(cls, map[string]interface{}{"a": stats.Hex(a), "b": stats.Hex(b), "l": l, "want": bytes.Compare(a[:l], b[:l])})
 		}
 		verifC20CmpOracle(t, rec, a, b, l)
-	})
+	}
+}
+
+func TestVerif_C20_Cmp(t *testing.T) {
+	t.Cleanup(stats.FlushAll)
+	rapid.Check(t, verifProp_C20_Cmp())
+}
+
+// FuzzVerif_C20_Cmp drives the same property with Go's coverage-guided fuzzer (thorough tier).
+func FuzzVerif_C20_Cmp(f *testing.F) {
+	f.Fuzz(rapid.MakeFuzz(verifProp_C20_Cmp()))
 }
 
 // All pairs of 1-byte strings at every position of an otherwise equal string,
@@ -204,11 +214,11 @@ func verifC20NAFOracle(t vt.TB, rec *stats.Recorder, s []byte, w, outLen int) (c
 	return out[256] != 0, nonzero
 }
 
-func TestVerif_C20_NAF(t *testing.T) {
+// verifProp_C20_NAF builds the property (shared by the rapid test and the native fuzz target).
+func verifProp_C20_NAF() func(*rapid.T) {
 	rec := stats.Get("C20", "naf")
 	rec.Rule("rapid: 32-byte s from {uniform, leading 00/FF, around 0/n/p/2^256, bit runs, one bit, extreme bytes, all-FF with one byte varied}, w in 1..7, len(out) in 257..300 zeroed; oracle: digits 0 or odd with |d|<2^w, w zeros after each non-zero digit, sum d_i 2^i = int(s), nothing written past index 256. Non-trivial: carry out of the top window (digit at index 256) or input with a run of >= w+1 one bits; distinct by (s,w).")
-	t.Cleanup(stats.FlushAll)
-	rapid.Check(t, func(t *rapid.T) {
+	return func(t *rapid.T) {
 		s, cls := gen.Bytes32(t, "s")
 		if gen.Int(t, "ffvar", 0, 9) == 0 {
 			for i := range s {
@@ -237,7 +247,17 @@ func TestVerif_C20_NAF(t *testing.T) {
 		if rec.WantSample(cls) {
 			rec.Sample(cls, map[string]interface{}{"s": stats.Hex(s), "w": w, "len_out": outLen, "top_carry": top})
 		}
-	})
+	}
+}
+
+func TestVerif_C20_NAF(t *testing.T) {
+	t.Cleanup(stats.FlushAll)
+	rapid.Check(t, verifProp_C20_NAF())
+}
+
+// FuzzVerif_C20_NAF drives the same property with Go's coverage-guided fuzzer (thorough tier).
+func FuzzVerif_C20_NAF(f *testing.F) {
+	f.Fuzz(rapid.MakeFuzz(verifProp_C20_NAF()))
 }
 
 // Every 16-bit pattern at every bit offset (others bits 0, and others bits 1),
